@@ -1,17 +1,20 @@
 #!/usr/bin/env python3
-"""development helper: apply a textual mutation to a /repo file, run a property check, restore the file.
-usage: try_mutation.py PROP FILE OLD NEW [--fuc GLOB]   (never leaves /repo modified)"""
-import subprocess, sys
+"""development helper: apply a textual mutation to a scratch COPY of /repo's circuits package, run a property check against the copy
+(PYVC_REPO), remove the copy.  usage: try_mutation.py PROP FILE OLD NEW [--fuc GLOB]   (/repo is never touched)"""
+import os, shutil, subprocess, sys, tempfile
 prop, path, old, new = sys.argv[1:5]
 extra = sys.argv[5:]
-full = '/repo/' + path
-src = open(full).read()
-assert src.count(old) >= 1, 'pattern not found'
-open(full, 'w').write(src.replace(old, new, 1))
+scratch = tempfile.mkdtemp(prefix='try_mut_')
 try:
-    p = subprocess.run(['bin/check', prop, '--no-evidence'] + extra, capture_output=True, text=True, cwd='/verif')
+    shutil.copytree('/repo/circuits', os.path.join(scratch, 'circuits'))
+    full = os.path.join(scratch, path)
+    src = open(full).read()
+    assert src.count(old) >= 1, 'pattern not found'
+    open(full, 'w').write(src.replace(old, new, 1))
+    p = subprocess.run(['bin/check', prop, '--no-evidence'] + extra, capture_output=True, text=True, cwd='/verif',
+                       env=dict(os.environ, PYVC_REPO=scratch))
     lines = [l for l in p.stdout.splitlines() if l.startswith(('VIOLATION', 'UNDECIDED', 'CHECKER', prop + ':', 'failed'))]
     print('\n'.join(l[:230] for l in lines[-12:]))
     print('exit', p.returncode)
 finally:
-    open(full, 'w').write(src)
+    shutil.rmtree(scratch, ignore_errors=True)
